@@ -138,6 +138,8 @@ pub fn random_stops(rng: &mut Rng) -> Vec<Stop> {
         let l = pos.len();
         pos[l - 1] = 1.0;
     }
+    // a third of the gradients are opaque throughout (what an "is this source opaque" shortcut looks at)
+    let all_opaque = rng.chance(0.3);
     // keep strictly increasing
     let mut out: Vec<Stop> = Vec::new();
     for q in pos {
@@ -147,6 +149,7 @@ pub fn random_stops(rng: &mut Rng) -> Vec<Stop> {
             }
         }
         let a = match rng.below(4) {
+            _ if all_opaque => 255,
             0 => 255,
             1 => rng.byte_biased(),
             _ => 128 + rng.below(128) as u8,
@@ -198,10 +201,11 @@ pub fn random_source(rng: &mut Rng, w: i32, h: i32, solid_weight: u64) -> SrcSpe
             let c2 = (rng.range(0., wf) as f32, rng.range(0., hf) as f32);
             let r2 = rng.range(2., wf + hf) as f32;
             let r1 = (r2 as f64 * rng.range(0.05, 0.6)) as f32;
-            // first circle inside the second
+            // first circle inside the second - or, one time in four, outside it: the gradient is then a cone and
+            // shades nothing (transparent) outside that cone, whatever its stops are
             let room = (r2 - r1) as f64 * 0.8;
             let ang = rng.range(0., 6.28);
-            let dist = rng.range(0., room);
+            let dist = if rng.chance(0.25) { (r2 - r1) as f64 * rng.range(1.3, 3.) } else { rng.range(0., room) };
             let c1 = ((c2.0 as f64 + dist * ang.cos()) as f32, (c2.1 as f64 + dist * ang.sin()) as f32);
             SrcSpec::TwoCircle { stops: random_stops(rng), c1, r1, c2, r2, spread: rng.below(3) as u8 }
         }
